@@ -99,6 +99,13 @@ func Run(ctx *vrun.Ctx, prop string) error {
 			}
 		}
 	}
+	indDone := make(chan error, 1)
+	if prop == "C03" {
+		// the flag protocol as an inductive invariant (Apalache), alongside everything else
+		go func() { indDone <- RunUtxoInductive(ctx) }()
+	} else {
+		indDone <- nil
+	}
 	if prop == "C03" {
 		// the cache-flag protocol itself: UtxoCache.tla replayed on a linear chain with re-creatable coinbases
 		if ctx.Thorough {
@@ -154,7 +161,7 @@ func Run(ctx *vrun.Ctx, prop string) error {
 		}
 	}
 	if os.Getenv("VERIF_SKIP_MODELS") != "" { // development aid: only the auxiliary specs of the property
-		return nil
+		return <-indDone
 	}
 	if !ctx.Thorough {
 		Prefetch(ctx, models, 3, 25*time.Minute)
@@ -164,5 +171,5 @@ func Run(ctx *vrun.Ctx, prop string) error {
 			return err
 		}
 	}
-	return nil
+	return <-indDone
 }
